@@ -52,13 +52,22 @@ func TestVerifKeysBroker(t *testing.T) {
 	defer w.Flush()
 	ctx := context.Background()
 	sc := bufio.NewScanner(f)
+	var counts []int32
 	n := 0
 	for sc.Scan() {
 		var l struct {
-			Segs []string `json:"segs"`
+			Counts []int32  `json:"counts"`
+			Segs   []string `json:"segs"`
 		}
 		if err := json.Unmarshal(sc.Bytes(), &l); err != nil {
 			t.Fatal(err)
+		}
+		if l.Counts != nil {
+			counts = l.Counts
+			continue
+		}
+		if len(counts) == 0 {
+			t.Fatal("first line must carry the partition counts to probe")
 		}
 		name := strings.Join(l.Segs, "/")
 		// auto-create through Metadata
@@ -79,14 +88,20 @@ func TestVerifKeysBroker(t *testing.T) {
 		h2.autoCreatePartitions = 2
 		_, _ = h2.getPartitionLog(ctx, name, 0)
 		prod := vkHas(s2, name)
-		// CreateTopics API
-		s3 := metadata.NewInMemoryStore(defaultMetadata())
-		h3 := newTestHandler(s3)
-		h3.allowAdminAPIs = true
-		creq := &kmsg.CreateTopicsRequest{Topics: []kmsg.CreateTopicsRequestTopic{{Topic: name, NumPartitions: 2, ReplicationFactor: 1}}}
-		_, _ = h3.handleCreateTopics(ctx, &protocol.RequestHeader{CorrelationID: 2}, creq)
-		api := vkHas(s3, name)
-		bs, _ := json.Marshal(map[string]any{"ev": "Broker", "i": n, "name": name, "accAuto": auto, "accProd": prod, "accApi": api})
+		// CreateTopics API, once per partition count of the alphabet (-1 = "broker default"), fresh store each time
+		api := false
+		cntApi := []bool{}
+		for _, c := range counts {
+			s3 := metadata.NewInMemoryStore(defaultMetadata())
+			h3 := newTestHandler(s3)
+			h3.allowAdminAPIs = true
+			creq := &kmsg.CreateTopicsRequest{Topics: []kmsg.CreateTopicsRequestTopic{{Topic: name, NumPartitions: c, ReplicationFactor: 1}}}
+			_, _ = h3.handleCreateTopics(ctx, &protocol.RequestHeader{CorrelationID: 2}, creq)
+			ok := vkHas(s3, name)
+			cntApi = append(cntApi, ok)
+			api = api || ok
+		}
+		bs, _ := json.Marshal(map[string]any{"ev": "Broker", "i": n, "name": name, "accAuto": auto, "accProd": prod, "accApi": api, "cntApi": cntApi})
 		w.Write(bs)
 		w.WriteByte('\n')
 		n++
